@@ -391,16 +391,34 @@ def _face_edges(run, P):
 
 
 def _counts(run, P):
-    """n_edge / n_max_face_edges are read from the dimensions of the derived tables"""
+    """n_edge / n_max_face_edges: every return is the size of the derived table itself (never a quantity that merely should equal it),
+    and the per-grid side tables of the edge table are written only together with the table they describe."""
     G = "uxarray/grid/grid.py"
-    for prop, var, axis in (("n_edge", "edge_node_connectivity", 0), ("n_max_face_edges", "face_edge_connectivity", 1)):
+    spec = {
+        "n_edge": ("edge_node_connectivity", ('self._ds.sizes["n_edge"]', "self._ds.sizes['n_edge']", "self.edge_node_connectivity.shape[0]", "self._ds['edge_node_connectivity'].shape[0]")),
+        "n_max_face_edges": ("face_edge_connectivity", ("self.face_edge_connectivity.shape[1]", "self._ds.sizes['n_max_face_edges']", 'self._ds.sizes["n_max_face_edges"]')),
+    }
+    for prop, (var, accepted) in spec.items():
         f = P.try_func(f"{G}:Grid.{prop}")
         c = f"Grid.{prop}:source"
         if f is None:
             run.incomplete("F-LAZY/counts", c, "-", "property not found")
             continue
-        txt = ast.unparse(f.node)
-        if var in txt or prop in txt:
-            run.holds("F-LAZY/counts", c, where(f), f"{prop} is taken from {var} / its dimension")
+        rets = [r for r in ast.walk(f.node) if isinstance(r, ast.Return)]
+        bad = [r for r in rets if norm(r.value).replace('"', "'") not in {a.replace('"', "'") for a in accepted}]
+        if rets and not bad:
+            run.holds("F-LAZY/counts", c, where(f, rets[0]), f"{prop} is read off {var} on all {len(rets)} return(s)")
         else:
-            run.violation("F-LAZY/counts", c, where(f), f"{prop} is not derived from {var}")
+            run.violation("F-LAZY/counts", c, where(f, bad[0]) if bad else where(f), f"{prop} returns {norm(bad[0].value)[:70] if bad else 'nothing'}: it must be the size of {var} itself - "
+                          "a stand-in (e.g. the widest face) differs whenever the face table is padded wider than its widest face, and the answer then changes once the table is built")
+    # side tables of the edge table
+    for g in P.all_functions():
+        for st in iter_stmts(g.node.body):
+            if isinstance(st, ast.Assign) and isinstance(st.targets[0], ast.Subscript) and str_const(st.targets[0].slice) in ("inverse_indices", "fill_value_mask"):
+                key = str_const(st.targets[0].slice)
+                c = f"{g.key}:writes[{key}]"
+                if g.name == "_populate_edge_node_connectivity":
+                    run.holds("IDX/pairing", c, where(g, st), f"{key} written together with the edge table it was derived with")
+                else:
+                    run.violation("IDX/pairing", c, where(g, st), f"{key} is written in {g.qualname}, apart from the edge table: inverse_indices number the edges in np.unique order of THIS build, "
+                                  "attached to an edge table with another numbering (supplied by the source, sliced from a parent) face_edge_connectivity points at the wrong edges")
